@@ -2,7 +2,7 @@
 import itertools
 import re
 
-from mirlib import ir, symx
+from mirlib import flow, ir, symx
 from mirlib.symx import INF, mk_adt, vbool, vint, show
 
 TERM = "adf_bdd::datatypes::bdd::Term"
@@ -205,3 +205,36 @@ def S_T_term(ctx, lib, which=None):
         except LookupError as e:
             ctx.lost(rule, "From<&Bdd> for Term", str(e))
     return n
+
+
+# ------------------------------------------------------------------ biodivine variable naming scheme
+def bio_naming(lib):
+    """how adfbiodivine::Adf::from_parser names the biodivine variables.
+    returns ('index', F_path) for (0..namelist.len()).map(F) ; ('label', None) for the statement labels ; (None, description)"""
+    from mirlib.pat import ANY, ADT, C, CLOS, F as PF, K, P, V, match
+    b = lib.one("adfbiodivine::Adf::from_parser")
+    calls, d = flow.all_call_exprs(b)
+    mv = [e for bb, t, ci, e in calls if e[0] == "call" and flow.last(e[2]) == "make_variables"]
+    if len(mv) != 1:
+        return None, "%d make_variables calls" % len(mv)
+    arg = mv[0][3][1]
+    m = match(arg, C("collect", C("map", C("iter", C("collect", C("map", ADT("Range", start=K(0), end=C("len", V("nl"))), V("f")))), ANY)))
+    if m is not None and m["f"][0] == "fnitem" and flow.find(m["nl"], lambda n_: n_[0] == "call" and flow.last(n_[2]) == "namelist"):
+        return "index", m["f"][1]
+    labels = [n_ for n_ in flow.find(arg, lambda n_: n_[0] == "call" and flow.last(n_[2]) in ("namelist", "names"))]
+    under_len = flow.find(arg, lambda n_: n_[0] == "call" and flow.last(n_[2]) == "len" and flow.find(n_, lambda m_: m_[0] == "call" and flow.last(m_[2]) in ("namelist", "names")))
+    if labels and not under_len:
+        return "label", None
+    return None, flow.show(arg)[:200]
+
+
+def position_name_pats(lib, idx_pat):
+    """patterns (list) matching the String that names the biodivine variable of position idx_pat under the tree's naming scheme"""
+    from mirlib.pat import ANY, ADT, C, F as PF
+    scheme, info = bio_naming(lib)
+    if scheme == "index":
+        fn_last = info.split("::")[-1]
+        return [C("Adf::" + fn_last, idx_pat)], scheme, info
+    if scheme == "label":
+        return [C("expect", C("VarContainer::name", PF(ANY, "ordering"), ADT("Var", _0=idx_pat)), ANY)], scheme, info
+    return [], scheme, info
